@@ -16,6 +16,19 @@ use serde_json::{json, Value};
 use std::io::BufRead;
 use std::sync::Arc;
 
+thread_local! {
+    /// RaftCore::snapshot_state (Streaming { id, snapshot, offset }) of the transcribed install handler
+    static SNAP_SESSION: std::cell::RefCell<Option<(String, Box<tokio::fs::File>, u64)>> = std::cell::RefCell::new(None);
+}
+
+pub fn hex_of(b: &[u8]) -> String {
+    b.iter().map(|x| format!("{:02x}", x)).collect()
+}
+
+pub fn unhex(s: &str) -> Vec<u8> {
+    (0..s.len() / 2).map(|i| u8::from_str_radix(&s[2 * i..2 * i + 2], 16).unwrap_or(0)).collect()
+}
+
 pub fn set_node_env(dir: &str) {
     std::env::set_var("RNACOS_DATA_DIR", dir);
     // RNVERIF_LEADER=1: a real single-member Raft group (this node elects itself and serves writes)
@@ -204,6 +217,56 @@ pub async fn exec(app: &Arc<AppShareData>, op: &Value) -> Value {
                     Err(e) => Ok(json!({"res":"error","err":e.to_string()})),
                 }
             }
+            "snap_get" => {
+                // what the leader's replication stream reads: get_current_snapshot + the bytes of the file
+                use tokio::io::AsyncReadExt;
+                match store.get_current_snapshot().await? {
+                    Some(mut cur) => {
+                        let mut bytes = vec![];
+                        cur.snapshot.read_to_end(&mut bytes).await?;
+                        let mut members: Vec<u64> = cur.membership.members.iter().cloned().collect();
+                        members.sort();
+                        Ok(json!({"res":"ok","index":cur.index,"term":cur.term,"members":members,"len":bytes.len(),"hex":crate::node::hex_of(&bytes)}))
+                    }
+                    None => Ok(json!({"res":"none"})),
+                }
+            }
+            "snap_chunk" => {
+                // TRANSCRIPTION of async-raft 0.6.3 core::install_snapshot (begin / continue / finalize) on the real FileStore
+                use tokio::io::{AsyncSeekExt, AsyncWriteExt};
+                let data = crate::node::unhex(op["hex"].as_str().unwrap_or(""));
+                let req_offset = op["offset"].as_u64().unwrap();
+                let done = op["done"].as_bool().unwrap();
+                let (index, term, last_log_index) = (op["index"].as_u64().unwrap(), op["term"].as_u64().unwrap(), op["last_log_index"].as_u64().unwrap());
+                let state = SNAP_SESSION.with(|s| s.borrow_mut().take());
+                let (id, mut snapshot, began) = match state {
+                    None => {
+                        let (id, mut snapshot) = store.create_snapshot().await?;
+                        snapshot.as_mut().write_all(&data).await?;
+                        (id, snapshot, true)
+                    }
+                    Some((id, mut snapshot, offset)) => {
+                        if req_offset != offset {
+                            snapshot.as_mut().seek(std::io::SeekFrom::Start(req_offset)).await?;
+                        }
+                        snapshot.as_mut().write_all(&data).await?;
+                        (id, snapshot, false)
+                    }
+                };
+                if done {
+                    snapshot.as_mut().shutdown().await?;
+                    let delete_through = if last_log_index > index { Some(index) } else { None };
+                    store.finalize_snapshot_installation(index, term, delete_through, id.clone(), snapshot).await?;
+                    let m = store.get_membership_config().await?;
+                    let mut members: Vec<u64> = m.members.iter().cloned().collect();
+                    members.sort();
+                    Ok(json!({"res":"ok","began":began,"finalized":true,"id":id,"members":members}))
+                } else {
+                    let offset = if began { data.len() as u64 } else { req_offset + data.len() as u64 };
+                    SNAP_SESSION.with(|s| *s.borrow_mut() = Some((id.clone(), snapshot, offset)));
+                    Ok(json!({"res":"ok","began":began,"finalized":false,"id":id}))
+                }
+            }
             "target_addr" => match store.get_target_addr(op["id"].as_u64().unwrap()).await {
                 Ok(a) => Ok(json!({"res":"ok","addr":a.as_str()})),
                 Err(_) => Ok(json!({"res":"ok","addr":Value::Null})),
@@ -311,6 +374,9 @@ pub async fn exec(app: &Arc<AppShareData>, op: &Value) -> Value {
 pub fn main_node(args: &[String]) -> anyhow::Result<()> {
     let dir = args[0].clone();
     let settle = crate::util::opt_u64(args, "--settle", 700);
+    if std::env::var("RNVERIF_NODE_LOG").is_ok() {
+        let _ = env_logger::try_init();
+    }
     let sys = actix_rt::System::new();
     sys.block_on(async move {
         let app = match boot(&dir).await {
@@ -380,7 +446,7 @@ impl NodeProc {
             .env("RUST_LOG", std::env::var("RNVERIF_NODE_LOG").unwrap_or("off".into()))
             .stdin(std::process::Stdio::piped())
             .stdout(std::process::Stdio::piped())
-            .stderr(std::process::Stdio::null())
+            .stderr(if std::env::var("RNVERIF_NODE_LOG").is_ok() { std::process::Stdio::inherit() } else { std::process::Stdio::null() })
             .spawn()?;
         let stdin = child.stdin.take().unwrap();
         let stdout = std::io::BufReader::new(child.stdout.take().unwrap());
